@@ -10,17 +10,21 @@ res_apply=ok; git apply $SRC/$L.diff || res_apply=FAILED
 tests=$(PYTHONPATH=$W PYTHONDONTWRITEBYTECODE=1 timeout 900 /venv/bin/python -m pytest -q -p no:cacheprovider --timeout=900 2>&1 | tail -1)
 demo_mut=$(PYX12_TREE=$W PYTHONPATH=$W PYTHONDONTWRITEBYTECODE=1 timeout 300 /venv/bin/python $SRC/demo_$L.py 2>&1 | tail -1; echo "rc=${PIPESTATUS[0]}")
 demo_clean=$(PYX12_TREE=/repo PYTHONPATH=/repo PYTHONDONTWRITEBYTECODE=1 timeout 300 /venv/bin/python $SRC/demo_$L.py 2>&1 | tail -1; echo "rc=${PIPESTATUS[0]}")
-cd /verif; git -C /repo worktree remove --force $W
+cd /verif
 echo "apply: $res_apply | tests with patch: $tests"
 echo "demo on patched tree: $demo_mut" | tr '\n' ' '; echo
 echo "demo on /repo: $demo_clean" | tr '\n' ' '; echo
 # our checks
 CHECKS=${CHECKS:-$ID}
 declare -A det
+# our checks run against the scratch worktree (never against /repo); outputs are redirected
+VO=/tmp/vpx_out-$ID-$L; mkdir -p $VO
 for c in $CHECKS; do
-  o=$(LINES_OUT=4 tools/try_patch.sh $SRC/$L.diff $c ${TIER:-quick} 2>&1); echo "$o" | tail -3
-  if echo "$o" | grep -q "check exit=1"; then det[$c]=detected; else det[$c]=MISSED; fi
+  o=$(VPX_REPO=$W VPX_OUT=$VO ./check $c --tier ${TIER:-quick} 2>&1 | grep -v "^bucket=\|^KNOWN" | tail -3); rc=${PIPESTATUS[0]}
+  echo "$o" | tail -2
+  if echo "$o" | grep -q "^VIOLATION"; then det[$c]=detected; echo "check exit=1 (mutant detected)"; else det[$c]=MISSED; echo "check: mutant NOT detected"; fi
 done
+git -C /repo worktree remove --force $W; rm -rf $VO
 mkdir -p $OUT; cp $SRC/$L.diff $OUT/patch.diff; cp $SRC/demo_$L.py $OUT/demo.py
 /venv/bin/python - "$ID" "$L" "$tests" "$demo_mut" "$demo_clean" "$3" "$(for c in $CHECKS; do echo -n "$c=${det[$c]} "; done)" <<'PY'
 import json,sys,re
